@@ -182,6 +182,27 @@ def retry_sweep() -> list[dict]:
     return out
 
 
+def onefrag_sweep() -> list[dict]:
+    """Zones whose schedule fits a single fragment (one switch-point a day): reads, forced re-reads, a controller
+    edit before each exchange, lost exchanges, next to an ordinary zone."""
+    out = []
+    for small in ([2], [1], [1, 2]):
+        z = small[0]
+        other = 3 - z
+        base = [["start", 1, z, 0, 0, 0, -1], ["start", 2, other, 0, 0, 1, -1], ["start", 3, z, 0, 1, 2, -1]]
+        out.append({"zones": [1, 2], "onefrag": small, "h": base + [["fu", 1, 0, 0, 0, 0, -1], ["fu", 2, 0, 0, 0, 0, -1]]})
+        for n in range(0, 4):
+            out.append({"zones": [1, 2], "onefrag": small,
+                        "h": [["start", 1, z, 0, 0, 0, -1], ["bump", z, 0, 0, 0, 1, n], ["fu", z, 0, 0, 0, 0, -1],
+                              ["fu", other, 0, 0, 0, 0, -1]]})
+            for fault in ("lost", "rlost"):
+                out.append({"zones": [1, 2], "onefrag": small,
+                            "h": [["start", 1, z, 0, 0, 0, -1], [fault, 1, n, 0, 0, 0, 0], ["start", 2, z, 0, 1, 1, -1],
+                                  ["fu", z, 0, 0, 0, 0, -1], ["fu", other, 0, 0, 0, 0, -1]]})
+    # (reads only: the shadow model's fragment count of a *written* schedule is fixed by its version number)
+    return out
+
+
 def _exec(sc: dict) -> tuple[dict, int, int, int]:
     fakes.quiet_logging()
     rr = X.run_scenario(sc)
@@ -291,6 +312,7 @@ def main(tier: str, replay: str | None) -> None:
     scen += [("bump-sweep", s) for s in bump_sweep()]
     scen += [("concurrent-sweep", s) for s in concurrent_sweep()]
     scen += [("retry-sweep", s) for s in retry_sweep()]
+    scen += [("onefrag-sweep", s) for s in onefrag_sweep()]
     # transparent-fault variants (slow / duplicated replies) of a sample
     base = [s for _, s in scen]
     for s in rnd.sample(base, min(len(base), 120 if quick else 2000)):
